@@ -109,6 +109,9 @@ func srvKind(i int, uniform bool) int {
 	}
 	// (ordered so that the small ids the model uses meet every kind of request, also those without a payload in
 	// their reply: 1 stat, 2 clunk, 3 open, 4 read, 5 remove, 6 create, 7 wstat, 8 walk, 9 write, 10 attach, 0 auth)
+	if i < 0 {
+		return 0 // (a message the handler could not identify)
+	}
 	return []int{0, 1, 8, 3, 4, 9, 6, 10, 2, 5, 7}[i%11]
 }
 
